@@ -1,4 +1,3 @@
-from functools import partial
 from inspect import BoundArguments
 from inspect import Parameter
 from inspect import Signature
@@ -6,33 +5,31 @@ from inspect import iscoroutinefunction
 from itertools import chain
 from types import MethodType
 from typing import Any
+from weakref import WeakKeyDictionary
 
 
 def _make_key(method):
-    method = method.func if isinstance(method, partial) else method
+    """The cache is keyed by the callable object itself (weakly), never by its names:
+    two callables that share a qualified name may still differ in signature."""
     method = method.fget if isinstance(method, property) else method
     if isinstance(method, MethodType):
-        return hash(
-            (
-                method.__qualname__,
-                method.__self__.__class__.__name__,
-                method.__code__.co_varnames,
-            )
-        )
-    else:
-        return hash((method.__qualname__, method.__code__.co_varnames))
+        return method.__func__, True
+    return method, False
 
 
 def signature_cache(user_function):
-    cache = {}
-    cache_get = cache.get
+    cache = WeakKeyDictionary()
 
     def cached_function(cls, method):
-        key = _make_key(method)
-        sig = cache_get(key)
+        target, is_bound = _make_key(method)
+        try:
+            per_target = cache.setdefault(target, {})
+        except TypeError:  # not weak-referenceable or not hashable: do not cache
+            return user_function(cls, method)
+        sig = per_target.get(is_bound)
         if sig is None:
             sig = user_function(cls, method)
-            cache[key] = sig
+            per_target[is_bound] = sig
 
         return sig
 
